@@ -298,6 +298,8 @@ class Proto:
 
     def run(self, fn_rx, finisher_some, tag, extra_args=0, by_value=False, havoc=False):
         ex = M.Exec(self.mir, self.ctx, models=self.models(), havoc_unknown=havoc)
+        if havoc:
+            ex.max_revisit = 3      # helper loops introduced into an entry point (e.g. a compaction pass) are unrolled, not refused
         s, p = self.fresh_state(ex, finisher_some, tag)
         fn = self.mir.find(fn_rx)
         if by_value:
@@ -683,7 +685,7 @@ def protocol_groups(mir, ctx, which):
         for name, rx, byval in (("flush", r"package::.*::flush$", False), ("into_inner", r"package::.*::into_inner$", True),
                                 ("drop", r"package::<impl at [^>]*>::drop$", False)):
             tag = name + "_unarmed_ro"
-            s, p, outs = P.run(rx, False, tag, by_value=byval)
+            s, p, outs = P.run(rx, False, tag, by_value=byval, havoc=True)
             get = {"summary_dirty_before": s.term, "pool_dirty_before": p.term}
             for o in outs:
                 if o.kind != "return":
